@@ -175,7 +175,8 @@ def _make_tle(op_sat, epoch, l1, l2):
     import numpy as np
     from pyorbital import tlefile
     tle = tlefile.Tle("", line1=l1, line2=l2)
-    assert int(tle.satnumber) == op_sat, (tle.satnumber, op_sat)
+    if not (int(tle.satnumber) == op_sat):
+        raise RuntimeError((tle.satnumber, op_sat))
     tle.epoch = np.datetime64(dt.datetime(*epoch), "us")
     return tle
 
@@ -295,7 +296,8 @@ def hist_line(hist, inside_shift=None):
 
 def parse_model(out):
     t = out.split(" ")
-    assert t[0] == "O", out[:80]
+    if not (t[0] == "O"):
+        raise RuntimeError(out[:80])
     i = 1
     outs = []
     while t[i] != "T":
@@ -311,9 +313,12 @@ def parse_model(out):
         rows = []
         for _ in range(nr):
             rows.append((lib.h2s(t[i]), lib.h2s(t[i + 1]), lib.h2s(t[i + 2]))); i += 3
-        assert sat not in tables
+        if not (sat not in tables):
+            raise RuntimeError('sat not in tables')
         tables[sat] = rows
-    assert t[i] == "N"; i += 1
+    if not (t[i] == "N"):
+        raise RuntimeError('t[i] == "N"')
+    i += 1
     if t[i] == "-":
         names = None
     else:
